@@ -70,9 +70,37 @@ class G:
         a = self.attrs() if self.rng.random() < 0.3 else {}
         return ('p', a, self.inl(allow_fn=allow_fn))
 
+    def para_br(self):
+        """a paragraph holding an editorial remark that spans lines ("remarks may span multiple lines and may contain other
+        inline elements"): every line break inside the remark is a <br/>. Line breaks are followed by text, by a nested
+        inline, or directly by the closing braces; the remark may itself sit inside another inline."""
+        rng = self.rng
+        rem = [self.w()]
+        for _ in range(rng.randint(1, 3)):
+            rem.append(('br',))
+            k = rng.random()
+            if k < 0.4:
+                rem.append(self.w())
+            elif k < 0.8:
+                kind = rng.choice(['b', 'i', 'ref', 'term', 'sup'])
+                inner = [self.w(1)]
+                rem.append(('ref', 'http://x.y/z', inner) if kind == 'ref' else ('term', '#t1', inner) if kind == 'term' else (kind, inner))
+                if rng.random() < 0.5:
+                    rem.append(' ' + self.w(1))
+        if rng.random() < 0.25:
+            rem.append(('br',))
+        piece = ('remark', rem)
+        wrap = rng.random()
+        if wrap < 0.2:
+            piece = (rng.choice(['sup', 'sub', 'b', 'em']), [self.w(1) + ' ', piece])
+        pieces = ([self.w() + ' '] if rng.random() < 0.7 else []) + [piece] + ([' ' + self.w()] if rng.random() < 0.7 else [])
+        return ('p', {}, pieces)
+
     def block(self, depth=0):
         rng = self.rng
         r = rng.random()
+        if r < 0.07:
+            return self.para_br()
         if depth > 1 or r < 0.55:
             return self.para()
         if r < 0.67:
@@ -177,6 +205,9 @@ def r_attrs(a):
     return out
 
 
+BR = '\x00'   # a line break inside a remark: expanded by render() to a newline plus the indentation of its line
+
+
 def r_inl(pieces, notes):
     out = []
     for p in pieces:
@@ -184,7 +215,9 @@ def r_inl(pieces, notes):
             out.append(p)
             continue
         k = p[0]
-        if k == 'img':
+        if k == 'br':
+            out.append(BR)
+        elif k == 'img':
             out.append('{{IMG %s%s}}' % (p[1], ' ' + p[2] if p[2] else ''))
         elif k == 'fn':
             out.append('{{FOOTNOTE %s}}' % p[1])
@@ -357,7 +390,14 @@ def render(d, blank_lines=False):
             out += r_block(b, 1)
     for a in d['attachments']:
         out += r_attachment(a, 0)
-    return ('\n\n' if blank_lines else '\n').join(out) + '\n'
+    lines = []
+    for l in out:
+        if BR in l:
+            ind = l[:len(l) - len(l.lstrip(' '))]
+            parts = l.split(BR)
+            l = parts[0] + ''.join('\n' + ind + x for x in parts[1:])
+        lines.append(l)
+    return ('\n\n' if blank_lines else '\n').join(lines) + '\n'
 
 
 # ---------------------------------------------------------------------------- expected tree (no meta, no eIds)
@@ -383,7 +423,9 @@ def x_inl(pieces):
             out.append(p)
             continue
         k = p[0]
-        if k == 'img':
+        if k == 'br':
+            out.append(E('br', {}, []))
+        elif k == 'img':
             a = {'src': p[1]}
             if p[2]:
                 a['alt'] = p[2]
